@@ -40,7 +40,7 @@ def registerNew (o : Oracle) (cfgs : List GroupCfg) : Nat → List Asg → List 
   | k, [], acc => ⟨acc, [], k⟩
   | k, a :: as, acc =>
     match findProv acc a.name, awsCfgFor cfgs a.name with
-    | some _, _ => registerNew o cfgs k as (setProv acc ⟨a.name, a, (findProv acc a.name).map (·.tries) |>.getD 0⟩)
+    | some p, _ => registerNew o cfgs k as (setProv acc ⟨a.name, a, p.tries⟩)
     | none, none => registerNew o cfgs k as acc       -- an ASG nobody asked for (cannot happen with AWS)
     | none, some ac =>
       if ac.resourceTagging && !a.tagged then
@@ -102,6 +102,13 @@ structure GroupRec where
   delta : Int
   err : ScanErr
   branch : String
+  -- what the group scan started from (for stating properties per scan)
+  cfg : GroupCfg
+  pre : GState
+  preG : PGroup
+  view : View
+  nowMock : Int
+  nowReal : Int
 deriving Repr, Inhabited
 
 structure RunOut where
@@ -114,7 +121,7 @@ deriving Repr, Inhabited
 /-- The refresh-and-rebuild prologue of `RunOnce` (`tries` rebuild attempts left). -/
 def refreshLoop (o : Oracle) (cfgs : List GroupCfg) : Nat → Nat → List PGroup → Eff (Option (List PGroup))
   | 0, k, prov => ⟨some prov, [], k⟩             -- give up refreshing, carry on with the cached data
-  | t + 1, k, prov =>
+  | t + 1, k, _ =>
     let b := build o k cfgs
     match b.val with
     | none => ⟨none, b.j, b.k⟩                   -- Build failed: RunOnce returns the error
@@ -143,7 +150,7 @@ def groupLoop (rnd : Rat → Rat) (o : Oracle) (ctl : Ctl) (views : String → V
       let r := scanGroup rnd o k ctl.globalDry c gst pg (views c.name) (hints c.name) nowMock nowReal
       let gst' := { r.val.st with scaleDelta := r.val.delta }
       let st' : CState := ⟨setState ls.st.groups c.name gst', setProv ls.st.prov r.val.g⟩
-      let recs := ls.recs ++ [⟨c.name, r.j, r.val.delta, r.val.err, r.val.branch⟩]
+      let recs := ls.recs ++ [⟨c.name, r.j, r.val.delta, r.val.err, r.val.branch, c, gst, pg, views c.name, nowMock, nowReal⟩]
       match r.val.err with
       | .notInGroup => ⟨⟨st', recs, .fatal "not-in-group"⟩, r.j, r.k⟩
       | .fatalExit => ⟨⟨st', recs, .fatal "fleet-strikes"⟩, r.j, r.k⟩
@@ -167,6 +174,32 @@ def runOnce (rnd : Rat → Rat) (o : Oracle) (k : Nat) (ctl : Ctl) (st : CState)
   | some prov =>
     let g := groupLoop rnd o ctl views hints nowMock nowReal pre.k ctl.cfgs ⟨{ st with prov := prov }, [], .ok⟩
     ⟨⟨g.val.outcome, g.val.st, pre.j, g.val.recs⟩, pre.j ++ g.j, g.k⟩
+
+/-! ### Histories -/
+
+/-- Everything the environment supplies for one `RunOnce`. -/
+structure ScanInput where
+  o : Oracle
+  views : String → View
+  hints : String → Hints
+  nowMock : Int
+  nowReal : Int
+
+/-- What can happen to a controller between and including scans. `restart` is a crash/restart at a
+    scan boundary: all controller and provider state is rebuilt from scratch. -/
+inductive Event where
+  | scan (i : ScanInput)
+  | restart (o : Oracle)
+
+/-- Run a history; returns the output of every scan, oldest first. A fatal outcome ends the
+    lifetime: the next scan happens only after a `restart`. -/
+def runEvents (rnd : Rat → Rat) (ctl : Ctl) : Option CState → List Event → List RunOut
+  | _, [] => []
+  | _, .restart o :: es => runEvents rnd ctl (newController o 0 ctl).val es
+  | none, .scan _ :: es => runEvents rnd ctl none es
+  | some st, .scan i :: es =>
+    let r := (runOnce rnd i.o 0 ctl st i.views i.hints i.nowMock i.nowReal).val
+    r :: runEvents rnd ctl (if r.outcome = .ok then some r.st else none) es
 
 /-- The view of one group: what its two filtered listers return from the cluster-wide lists. -/
 def viewOf (c : GroupCfg) (allPods : List Pod) (allNodes : List Node) : View :=
